@@ -1862,3 +1862,24 @@ def _with_n3(b, q, t):
 
 for _p in ('C01', 'C03', 'C08'):
     PROPS[_p]['bounds'] = _with_n3(BOUNDS_GRAPH, 4, 6)
+
+
+# ------------------------------------------------------------------ debug-profile samples
+# The crate's behaviour differs between profiles (debug_assert!s in get_mut_unchecked / Weak::as_ptr / from_box, cfg(debug_assertions)
+# code in cycle_refs). A seeded sample of the scenario items of these properties is decided a second time on the MIR dumped with
+# -C debug-assertions=on: every oracle must hold there too.
+def _with_debug_sample(pid, nq, nt):
+    base = PROPS[pid]['items']
+
+    def items(tier, seed, P, base=base):
+        its = base(tier, seed, P)
+        cand = [it for it in its if not it['name'].startswith('lemma') and not it.get('witness') and 'post_item' not in it and 'finish' not in it]
+        rnd = random.Random('dbg|%s|%d' % (pid, seed))
+        k = nq if tier == 'quick' else nt
+        pick = rnd.sample(cand, min(k, len(cand)))
+        return its + _debug_profile_copies(pick, lambda it: True, k)
+    PROPS[pid]['items'] = items
+
+
+for _pid, _nq, _nt in (('C02', 80, 600), ('C03', 60, 400), ('C06', 60, 400), ('C10', 40, 300), ('C11', 40, 300), ('C12', 60, 400), ('C05', 30, 200)):
+    _with_debug_sample(_pid, _nq, _nt)
